@@ -171,4 +171,20 @@ PROPS = {
         "trusted_base": COMMON_TB + [SERDE_TB, "serde's [u8; N] impl (tuple of N u8) and #[serde(with)] plumbing MODELLED"],
         "assumptions": [],
     },
+    "C11": {
+        "gens": ["C11"],
+        "rule": "`wio <std|eio> <failAt> <schedule> <value>`: to_io / to_eio through a byte writer that accepts data in whole, 1-byte or seeded random short pieces and fails at EVERY absolute byte offset 0..L+1 of the encoding; `rio <std|eio> <fault> <scratch> <schedule> <count> <type> <stream>`: from_io / from_eio decoding 1..5 consecutive messages from one reader delivering whole / random short reads, with scratch sizes 0..need+1, a fault injected at every byte offset of the transfer, trailing bytes, one-message-too-many (EOF) and truncated streams; the scratch buffer sits against an inaccessible page; harness oracle: bytes handed to the writer are a prefix of the plain encoding, reader value = slice value, reader advanced by exactly the message length, borrowed data inside the scratch buffer, disjoint and ordered; non-trivial = distinct op line",
+        "nontrivial": lambda op, a: True,
+        "diff_is_witness": False,
+        "trusted_base": COMMON_TB + [SERDE_TB, CORE_TB, "std::io / embedded-io read_exact and write_all are MODELLED (all-or-error; partial read/write schedules inside them are invisible by their contract) and exercised with scheduled Read/Write impls", "embedded-io 0.6 adapter only (0.4 and 0.6 are mutually exclusive features of the crate; 0.4 shares the same source text)"],
+        "assumptions": ["a failed try_take_n loses its scratch slot; unobservable through from_io (which never finalizes after an error)"],
+    },
+    "C20": {
+        "gens": ["C20"],
+        "rule": "`stack crccobs <storage> <cap> <alg> <type> <value>`: serialize_with_flavor(v, CrcModifier::new(Cobs::try_new(storage)?, digest)) for storage in {growable, slice between canaries, heapless} x 4 CRC widths, ample and too-small capacity; harness oracle: output = COBS frame of (plain ++ LE checksum) computed independently, reference-COBS-decoding then CRC-checked decoding recovers the value; `rec override|default <value>`: a recording user flavour with and without a try_extend override (call log compared with emit v / byte-wise pushes; payloads concatenate to the plain encoding); plus the single-layer stacks via `sercap`; non-trivial = distinct op line",
+        "nontrivial": lambda op, a: True,
+        "diff_is_witness": False,
+        "trusted_base": COMMON_TB + [SERDE_TB, "cobs and crc crates MODELLED (see C06, C10)"],
+        "assumptions": ["CrcModifier has no IndexMut, so COBS-inside-CRC is the only two-modifier stack the crate admits"],
+    },
 }
